@@ -421,8 +421,13 @@ def r4(ctx, r):
         return None
     pa = PredAbs(dt, vocab, leaf, lambda e: None)
     r.instance()
-    w = search(dt, ("entry",), "exit", stop=lambda x: x in tds, eh=False, edge_ok=lambda b, si: not (b.cond is not None and "_impl" in show(b.cond) and b.term["k"] in ("IfStmt", "BinaryOperator") and
-                                                                                                   b.edge_label(si) is True and show(b.cond).startswith("!")))
+    def has_engine_edge(b, si):
+        # the edge on which `_impl` is null leaves the obligation (nothing to tear down)
+        if b.cond is None or b.term["k"] not in ("IfStmt", "BinaryOperator"):
+            return True
+        c, st, sf = common.branch(b)
+        return not (c is not None and c.get("k") != "bin" and "_impl" in show(c) and b.succs[si] == sf and st != sf)
+    w = search(dt, ("entry",), "exit", stop=lambda x: x in tds, eh=False, edge_ok=has_engine_edge)
     r.expect(bool(tds) and w is None, dt, None, "destructor skips teardown", "~Transport can return without running the teardown handshake although an engine exists", witness=witness_str(dt, w),
              okdesc="~Transport: every path with an engine runs a teardown handshake")
     # a counted operation stays counted for as long as it can still call into the engine / Impl: no engine call after its guard died
